@@ -126,6 +126,10 @@ func HarnessLogout() {
 	used := samlReq.form()
 	usedEnc := enc.form()
 	usedRelay := relay.form()
+	if usedEnc == "" && samlReq.qHas {
+		// HTTP-Redirect binding: DEFLATE is the default encoding
+		usedEnc = xml.EncodingDeflate
+	}
 	decodes := !vrtBool("req.parsefail") && used != "" && (shape == 1 && usedEnc == "" || shape == 2 && usedEnc == xml.EncodingDeflate)
 	d := vrtDecodeLogoutResponse(rp)
 	success := d.decoded && d.resp.Status.StatusCode.Value == StatusCodeSuccess
